@@ -9,3 +9,9 @@ import TsVerif.C07.Props
 #print axioms TsVerif.C07.erase_in_bounds
 #print axioms TsVerif.C07.assign_in_bounds
 #print axioms TsVerif.C07.stack_links_bounded
+#print axioms TsVerif.C07.pool_alloc_ok
+#print axioms TsVerif.C07.pool_free_ok
+#print axioms TsVerif.C07.capture_acquire_ok
+#print axioms TsVerif.C07.capture_release_ok
+#print axioms TsVerif.C07.capture_reset_ok
+#print axioms TsVerif.C07.ess_roundtrip
